@@ -23,3 +23,72 @@ Definition oracle (n : nat) (chunks : list (list Z)) (o : obs) : bool :=
     else if Nat.ltb total n then match o with OFn => true | _ => false end
     else true
   else true.
+
+(* ---------- map_, filter_, setcol: the implementation's result against Spec/Functional.v.
+   The user function is tabulated by the harness on the arguments it was applied to. *)
+From Coq Require Import String.
+From DM Require Export Base.PyVal Spec.Nf Spec.Table Spec.Functional.
+
+Definition mkc (n : string) (k : kind) (xs : list val) : col := {| cname := n; ckind := k; ccells := xs |}.
+Definition mkt (n : nat) (d : kind) (cs : list col) : tab := {| tlen := n; tdflt := d; tcols := cs |}.
+
+Definition kind_eqb (a b : kind) : bool :=
+  match a, b with KMixed, KMixed | KFloat, KFloat | KInt, KInt => true | _, _ => false end.
+Fixpoint cells_eqv (a b : list val) : bool :=
+  match a, b with
+  | [], [] => true
+  | x :: a', y :: b' => val_eqv x y && cells_eqv a' b'
+  | _, _ => false
+  end.
+Definition col_eqv (a b : col) : bool :=
+  String.eqb (cname a) (cname b) && kind_eqb (ckind a) (ckind b) && cells_eqv (ccells a) (ccells b).
+(* same columns by name (the order of the column dict is not part of the claim), same kinds, cells equal as Python values *)
+Definition tab_eqv (a b : tab) : bool :=
+  Nat.eqb (tlen a) (tlen b) && Nat.eqb (List.length (tcols a)) (List.length (tcols b)) &&
+  forallb (fun c => match find_col (cname c) (tcols b) with Some c' => col_eqv c c' | None => false end) (tcols a).
+(* type and cells of a detached column *)
+Definition dcol_eqv (a b : col) : bool := kind_eqb (ckind a) (ckind b) && cells_eqv (ccells a) (ccells b).
+
+Fixpoint row_same (a b : row) : bool :=
+  match a, b with
+  | [], [] => true
+  | (n, x) :: a', (m, y) :: b' => String.eqb n m && val_same x y && row_same a' b'
+  | _, _ => false
+  end.
+Fixpoint assoc_by {K V} (eqb : K -> K -> bool) (k : K) (l : list (K * V)) : option V :=
+  match l with [] => None | (k', v) :: r => if eqb k k' then Some v else assoc_by eqb k r end.
+
+(* a row the function was never applied to yields a value no column accepts, so the comparison fails *)
+Definition unseen : upd := [("__unseen__"%string, POther)].
+Definition tab_rowfun (tbl : list (row * upd)) (r : row) : upd :=
+  match assoc_by row_same r tbl with Some u => u | None => unseen end.
+Definition tab_rowpred (tbl : list (row * bool)) (r : row) : bool :=
+  match assoc_by row_same r tbl with Some b => b | None => false end.
+Definition tab_cellfun (tbl : list (val * pyv)) (x : val) : pyv :=
+  match assoc_by val_same x tbl with Some u => u | None => POther end.
+Definition tab_cellpred (tbl : list (val * bool)) (x : val) : bool :=
+  match assoc_by val_same x tbl with Some b => b | None => false end.
+
+Definition res_tab_ok (spec obs : res tab) : bool :=
+  match spec, obs with
+  | Ok a, Ok b => tab_eqv a b
+  | Raise _, Raise _ => true
+  | _, _ => false
+  end.
+Definition oracle_map_dm (tbl : list (row * upd)) (t : tab) (obs : res tab) : bool :=
+  res_tab_ok (map_dm (tab_rowfun tbl) t) obs.
+Definition oracle_filter_dm (tbl : list (row * bool)) (t : tab) (obs : res tab) : bool :=
+  forallb (fun j => match assoc_by row_same (read_row t j) tbl with Some _ => true | None => false end) (seq 0 (tlen t)) &&
+  res_tab_ok (Ok (filter_dm (tab_rowpred tbl) t)) obs.
+Definition oracle_setcol (t : tab) (n : string) (v : cvalue) (obs : res tab) : bool :=
+  res_tab_ok (setcol t n v) obs.
+Definition oracle_map_col (tbl : list (val * pyv)) (c : col) (obs : res col) : bool :=
+  match map_col (tab_cellfun tbl) c, obs with
+  | Ok a, Ok b => dcol_eqv a b
+  | Raise OtherError, _ => true                    (* outside what the spec speaks about *)
+  | Raise _, Raise _ => true
+  | _, _ => false
+  end.
+Definition oracle_filter_col (tbl : list (val * bool)) (c : col) (obs : res col) : bool :=
+  forallb (fun x => match assoc_by val_same x tbl with Some _ => true | None => false end) (ccells c) &&
+  match obs with Ok b => dcol_eqv (filter_col (tab_cellpred tbl) c) b | Raise _ => false end.
